@@ -311,18 +311,22 @@ def r5_3(ctx):
          "EXPUNGE returns early exactly when no message is \\Deleted", "the early return of EXPUNGE no longer fires exactly when the \\Deleted sequence is empty: EXPUNGE removes nothing although messages are flagged"),
         (["if uid_msg_set is None:\n    return"],
          "forced expunge without a UID list removes nothing", "the forced expunge (MOVE / POP3 QUIT) no longer returns when it was given no UID list"),
-        (["for msg_key in to_delete:\n    if msg_key not in self._msg_key_to_idx:\n        ...\n        continue\n    which = self._msg_key_to_idx[msg_key]\n    ..."],
+        (["for msg_key in to_delete:\n    if msg_key not in self._msg_key_to_idx:\n        ...\n        continue\n    which = self._msg_key_to_idx[msg_key]\n    ...",
+          "for msg_key in to_delete:\n    ...\n    if msg_key not in self._msg_key_to_idx:\n        ...\n        continue\n    which = self._msg_key_to_idx[msg_key]\n    ..."],
          "a key that is no longer in the mailbox is skipped (and only such a key)", "the removal loop's skip test is no longer `key not in the index`: present messages are skipped / vanished ones dereferenced"),
         (["which = self._msg_key_to_idx[msg_key]"], "position of the key looked up in the reverse index", "the position of the message to remove is no longer looked up by its key"),
         (["del self.msg_keys[which]"], "msg_keys entry removed at that position", "the message key is no longer removed from msg_keys at the looked-up position"),
         (["del self.uids[which]"], "uids entry removed at the same position", "the UID is no longer removed at the same position as its message key"),
         (["self.num_msgs -= 1", "self.num_msgs = len(self.msg_keys)"], "message count follows the removal (one per removed message)", "num_msgs no longer decreases by exactly one per removed message: EXISTS / STATUS report a wrong count"),
         (["await self.mailbox.aremove(msg_key)"], "the message file of that key is removed", "the message file removed is not the one of the key being expunged"),
-        (["for seq in self.sequences.keys():\n    for msg_key in to_delete:\n        self.sequences[seq].discard(msg_key)", "for seq in self.sequences:\n    for msg_key in to_delete:\n        self.sequences[seq].discard(msg_key)", "for seq in self.sequences.values():\n    seq.difference_update(to_delete)"],
+        (["for seq in self.sequences.keys():\n    for msg_key in to_delete:\n        self.sequences[seq].discard(msg_key)", "for seq in self.sequences:\n    for msg_key in to_delete:\n        self.sequences[seq].discard(msg_key)", "for seq in self.sequences.values():\n    seq.difference_update(to_delete)",
+          # the keys handled so far, collected by the removal loop itself (so that an interrupted EXPUNGE cleans up what it did)
+          ("for msg_key in to_delete:\n    done.append(msg_key)\n    ...", "for seq in self.sequences.keys():\n    self.sequences[seq].difference_update(done)"),
+          ("for msg_key in to_delete:\n    done.append(msg_key)\n    ...", "for seq in self.sequences.values():\n    seq.difference_update(done)")],
          "removed keys are discarded from every sequence", "removed message keys stay in the flag sequences: .mh_sequences and the database keep mentioning messages that no longer exist"),
     ]
     for pats, okmsg, badmsg in more:
-        if any(pm.has(x) for x in pats):
+        if any((all(pm.has(y) for y in x) if isinstance(x, tuple) else pm.has(x)) for x in pats):
             ctx.ok("R5.3", where(fi), okmsg)
         else:
             ctx.bad("R5.3", fi.module, fi.qual, pats[0].replace("\n", " "), badmsg, fi.node.lineno)
